@@ -255,6 +255,13 @@ def build_hal(flavour):
     return b.exe("hal_harness", objs, wrap("device_manager_get_driver"))
 
 
+def build_props(flavour):
+    b = Builder(flavour)
+    objs = b.objs(["acquire-core-libs/src/acquire-device-properties/device/props/storage.c"] + CORE_LOGGER)
+    objs += b.objs([harness("props_harness.cpp")])
+    return b.exe("props_harness", objs, wrap("malloc", "realloc", "free", "calloc"))
+
+
 TARGETS = {
     "chan": build_chan,
 }
